@@ -930,6 +930,8 @@ def install(T: Theory):
 def theory():
     T = Theory()
     install(T)
+    # values that are arrays at run time (numpy.ndarray is mutable: `x += ...` updates it in place)
+    T.array_like = lambda v: isinstance(v, ArrV) or isinstance(v, z3.ArithRef)
     return T
 
 
